@@ -138,6 +138,8 @@ IDENT_ARG = {
     "std::iter::Iterator::take": 0,
     "std::slice::to_vec": 0,
     "std::hint::must_use": 0,
+    "cosmwasm_std::to_json_vec": 0,
+    "core::num::to_be_bytes": 0,
     "cosmwasm_std::CosmosMsg::from": 0,
 }
 
@@ -236,6 +238,8 @@ def simplify(e):
     if op == "field":
         base = e.args[0]
         name, owner, variant = e.info
+        if base == DEFAULT:
+            return DEFAULT
         if base.op == "adt":
             if (not variant or base.info[1] == variant or not base.info[1]) and name in base.info[2]:
                 return base.args[base.info[2].index(name)]
